@@ -79,9 +79,15 @@ func oracle(c Case, o *h.Obs) *h.Fail {
 			continue
 		}
 		if n.Parent != nil {
-			pp, pok := order[n.Parent]
-			if pok && pp > pos {
-				return h.Failf("C17|child-before-parent|"+n.Kind, "source:\n%s\nnode %s was presented before its parent %T", c.Src, n.Kind, n.Parent)
+			// a shared node object has several parents: one of them must have been presented first
+			okParent := false
+			for _, par := range n.Parents {
+				if pp, pok := order[par]; pok && pp < pos {
+					okParent = true
+				}
+			}
+			if !okParent {
+				return h.Failf("C17|child-before-parent|"+n.Kind, "source:\n%s\nnode %s was presented before (any of) its parent(s) %T", c.Src, n.Kind, n.Parent)
 			}
 		}
 	}
